@@ -919,7 +919,17 @@ class Executor:
             res["exit"] = None
             res["end"] = "returned"
         except SystemExit as e:
-            res["exit"] = e.code
+            # what the operating system would report for this process: None -> 0, an int is truncated to 8 bits,
+            # anything else is printed to stderr and the status is 1
+            code = e.code
+            res["exit_raw"] = code if isinstance(code, (int, type(None))) else str(code)[:100]
+            if code is None:
+                res["exit"] = 0
+            elif isinstance(code, int):
+                res["exit"] = code & 0xFF
+            else:
+                res["exit"] = 1
+                out.append(("e", str(code) + "\n"))
             res["end"] = "exit"
         except SimDeadline:
             res["end"] = "hang"
